@@ -92,6 +92,21 @@ Definition size_okb (courses : list course) (parts : list participant) : bool :=
 Lemma size_okb_spec courses parts : size_okb courses parts = true -> SizeOK courses parts.
 Proof. apply Z.leb_le. Qed.
 
+(* the size clause of io::check_data_consistency, on the problem itself (whatever reader produced it): participants plus the sum of the
+   maximal course sizes is at most i32::MAX / WEIGHT_OFFSET - 2; it implies the size bound of the no-overflow theorem *)
+Definition rows_okb (courses : list course) (parts : list participant) : bool :=
+  (Z.of_nat (np parts) + Z.of_nat (sumN (map c_max courses)) <=? 2147483647 / WEIGHT_OFFSET - 2)%Z.
+Lemma rows_okb_size_ok courses parts : rows_okb courses parts = true -> SizeOK courses parts.
+Proof.
+  unfold rows_okb, SizeOK, n_, m_. intros H. apply Z.leb_le in H.
+  pose proof (countB_le (map (skippable courses parts) (seq 0 (np parts)))) as Hsk. rewrite map_length, seq_length in Hsk.
+  assert (HW : (0 < WEIGHT_OFFSET)%Z) by (unfold WEIGHT_OFFSET; lia).
+  pose proof (Z.mul_div_le 2147483647 WEIGHT_OFFSET HW) as Hd. unfold maxI.
+  set (n := Nat.max (sumN (map c_max courses) + countB (map (skippable courses parts) (seq 0 (np parts)))) (np parts)) in *.
+  assert (Hn : (Z.of_nat n <= Z.of_nat (np parts) + Z.of_nat (sumN (map c_max courses)))%Z) by (unfold n; lia).
+  nia.
+Qed.
+
 Section NO2.
 Variables (courses : list course) (parts : list participant).
 Notation np := (np parts). Notation m_ := (m_ courses). Notation n_ := (n_ courses parts).
@@ -140,6 +155,19 @@ Proof.
   rewrite score_of_contrib. rewrite <- (seq_length (np parts) 0) at 2. generalize (seq 0 (np parts)) as L. intros L.
   induction L as [|p t IH]; [simpl; lia|]. cbn [map length]. change (sumZ (?x :: ?l)) with (x + sumZ l)%Z.
   pose proof (contribution_le a p). rewrite Nat2Z.inj_succ. lia.
+Qed.
+
+Lemma contribution_nonneg a p : (0 <= contribution courses parts a p)%Z.
+Proof.
+  pose proof (weight_offset_nonneg courses parts V) as H0. unfold contribution.
+  destruct (instr_only parts p); [lia|]. destruct (getO a p) as [c|]; [|lia]. destruct (instructs courses p c); [lia|].
+  destruct (cw_cases parts p c) as [->|(ch & Hch & ->)]; [lia|]. pose proof (valid_pen _ _ V p ch Hch).
+  pose proof (v_pen _ _ V). pose proof (maxpen_nonneg parts). destruct (v_real _ _ V) as (q & Hq & _). nia.
+Qed.
+Lemma score_nonneg a : (0 <= score_of courses parts a)%Z.
+Proof.
+  rewrite score_of_contrib. generalize (seq 0 (np parts)) as L. intros L.
+  induction L as [|p t IH]; [simpl; lia|]. cbn [map]. change (sumZ (?x :: ?l)) with (x + sumZ l)%Z. pose proof (contribution_nonneg a p). lia.
 Qed.
 
 (* under the size bound every score fits u32 (Score): the `smax` hypothesis of the search theorems holds for smax = u32::MAX *)
